@@ -1117,6 +1117,11 @@ def run(rep, tier):
     rep.floor("OPT RR members", opt_rr_layout_rule(rep, ud), 7)
     counter_rule(rep, ud)
     rep.floor("DNS header accessors", accessor_siblings(rep, ud), 16)
+    from props import c15_audit
+    rep.floor("(NULL, 0) pairs reaching a copy", c15_audit.null_copy_rule(rep, ud, "include/proto/dns.h") + c15_audit.null_copy_rule(rep, ur, "include/proto/radius.h"), 5)
+    rep.floor("name buffer cases", c15_audit.name_fit_rule(rep, ud), 12)
+    rep.floor("attribute gathering cases", c15_audit.gather_rule(rep, ur), 2)
+    rep.floor("shifted copies inside the caller's buffers", c15_audit.inplace_rule(rep, ud), 1)
     ct_compare_rule(rep, ur)
     rep.floor("verify outcome combinations", verify_rule(rep, ur), 8)
     # every legal name (up to 127 labels) parses back: the walkers' anti-loop counter limits pointer jumps, not labels
